@@ -308,10 +308,19 @@ class _G:
         d["form"] = self.pick(["decorator", "explicit", "where"])
         if self.p["overloads"] and self.chance(0.45):
             d["dispatch"] = self.pick(U.DISPATCH_KEYS) if self.chance(0.6) else self.node(1, hashable=True)
+            composite = self.chance(self.p.get("tuple_dispatch", 0.12))
+            if composite:
+                # a composite dispatch value: a tuple of two options; aliases are tuples (each ONE alias)
+                d["dispatch"] = {"k": "tuple", "items": [{"k": "opt", "key": "K", "default": {"t": "const", "v": 0}},
+                                                         {"k": "opt", "key": "R.K", "default": {"t": "const", "v": "a"}}]}
             ovs = []
-            for i in range(self.draw(st.integers(0, 3))):
+            for i in range(self.draw(st.integers(1 if composite else 0, 3))):
                 alias = self.pick(U.HASHABLE_DISPATCH)
-                if self.chance(0.25):
+                if composite:
+                    alias = {"tuple": [self.pick([0, 0, 1, "a", None]), self.pick(["a", "a", "b", 1])]}
+                    if self.chance(0.25):
+                        alias = [alias, {"tuple": [self.pick([0, 1, "a", None]), self.pick(["a", "b", 1])]}]
+                elif self.chance(0.25):
                     alias = [alias, self.pick(U.HASHABLE_DISPATCH)]
                 if self.chance(0.5):
                     impl = {"k": "ovfn", "name": f"{name}_o{i}",
